@@ -85,13 +85,13 @@ CLAIMS["C19"] = ("site guards on payouts (comparison strictness), post-payout mu
 
 # repository-wide rules instantiated from the code itself (generic.go, recordlink.go), scoped per property
 GENERIC = {
-    "C20": " Also: all call sites of a store-key constructor pass their identifier kinds in the same order (genesis-only setters write under the key the runtime reads).",
-    "C18": " Also: in the lend keeper a refreshed accrual index comes with a refreshed accrual clock on every success path.",
-    "C17": " Also: the wide window sum is divided before it is narrowed; consumers in every module read the stored price only under found and IsPriceActive of the very record read (4 known findings: reward valuation and the V2 bid path accept an inactive price).",
-    "C15": " Also: at any depth inside a unit the error of a step that can fail after writing state is tested, handed on or returned, never dropped.",
+    "C20": " Also: all call sites of a store-key constructor pass their identifier kinds in the same order (genesis-only setters write under the key the runtime reads). Also: an export reader is not conditional on another reader's result; an index entry that is deleted and written again is deleted under its old key.",
+    "C18": " Also: in the lend keeper a refreshed accrual index comes with a refreshed accrual clock on every success path. Also: the base of an accrual formula is not a field the calling function increases.",
+    "C17": " Also: the wide window sum is divided before it is narrowed; consumers in every module read the stored price only under found and IsPriceActive of the very record read (4 known findings: reward valuation and the V2 bid path accept an inactive price). Also: identifier kinds in the oracle modules (a script id is not an asset id).",
+    "C15": " Also: at any depth inside a unit the error of a step that can fail after writing state is tested, handed on or returned, never dropped. Also: a window helper whose results bound a slice in unwrapped hook code does arithmetic only on parameters tested non-negative.",
     "C12": " Also: a record stored under an id read from a counter advances that counter on the same success path (otherwise the next creation overwrites the record and its owner).",
-    "C05": " Also: a matching function given the fill price judges and fills every order at that price only; MatchableAmount applies its zero-quote-value test on every path (both directions).",
-    "C06": " Also: the denomination-linkage and execute-once rules of the liquidity module (foreign shares redeemed against a pool, or a deposit executed twice, change the reserves per share). Also: pool creation recomputes the other coin's amount (rounded up) only when its first guess strictly exceeds the offer.",
+    "C05": " Also: a matching function given the fill price judges and fills every order at that price only; MatchableAmount applies its zero-quote-value test on every path (both directions). Also where the fill price is a local or captured variable: every judged price is one the function fills at.",
+    "C06": " Also: the denomination-linkage and execute-once rules of the liquidity module (foreign shares redeemed against a pool, or a deposit executed twice, change the reserves per share). Also: pool creation recomputes the other coin's amount (rounded up) only when its first guess strictly exceeds the offer. Also: x = quote, y = base at every call into the amm package.",
     "C02": " Also: counter provenance (a vault stored under a fresh id takes it from the vault counter read in the same function, and that id is what is stored back as the counter), and the stable-mint handlers book on the stable vault of the product the message names. Also: a running amount (esm redemption set-up) is started and continued with the same quantity.",
     "C01": " Also (repository-wide rules scoped to the vault module): identifier-kind agreement at every keeper call, no stale copy for every Get/Set accessor pair, outside the handlers a vault is credited only by an amount moved into vault custody in the same function (auction settlement under shutdown), and records loaded under independent message ids are tied by an equality test before a coin-moving handler can succeed. Also: counter provenance for vault ids. Also: direction-flag updaters of the published totals store the field plus / minus the amount and nothing else; no sdk-math result is computed and dropped.",
     "C03": " Also: records loaded under independent message ids (product and vault) are tied by an equality test, so the limits applied are those of the vault's own product. Also: in/out scale agreement and price discipline in the vault and market modules (a failed or inactive price is an error, never a default value). Also: direction-flag updaters of the minted / locked totals store the field plus / minus the amount; the floor is compared with one vault's principal.",
@@ -100,10 +100,10 @@ GENERIC = {
     "C08": " Also: paired writers mined from the repository and frozen (a new borrow id only with the stored borrow, its entry in the lend position's open-borrow list and the totals update; a removed borrow leaves every index); the LTV check of a draw covers principal and accrued interest. Also (lend module): identifier-kind agreement at every keeper call, no stale copy for every Get/Set accessor pair, and borrow totals follow the change applied to the recorded principal when the function changes it. Also: counter provenance for lend/borrow ids. Also: a lend/borrow record stored under a fresh id advances its counter on the same success path. Also: UpdateLendStats / UpdateBorrowStats store the field plus / minus the amount for the two flag values.",
     "C09": " Also (liquidation modules): identifier-kind agreement at every keeper call and no stale copy for every Get/Set accessor pair. Also: each sweep reads and stores its cursor under its own key (own prefix, swept app), no two sweeps share a key; a lend position is deleted only under the AmountIn <= 0 test of its own record. Also: the vault length counter that bounds the sweep window moves exactly with vault creation and deletion; readers of the liquidation modules build their store key from their inputs.",
     "C10": " Also (auction modules): identifier-kind agreement at every keeper call and no stale copy for every Get/Set accessor pair. Also: the elapsed time of the price path is measured from the auction record's own StartTime at all three update sites; at a v1 close the penalty sent to the collector is the collected inflow less the burnt principal. Also: a V2 settlement payout is never sized by the auction's remaining debt.",
-    "C11": " Also: the minimum bid step is rounded up; a deleted limit-bid deposit leaves the recorded total (paired writers). Also (auction modules): identifier-kind agreement at every keeper call and no stale copy for every Get/Set accessor pair. Also: in the automatic fill each reduction of the recorded limit-bid total equals the change of the depositor's record on the same path.",
+    "C11": " Also: the minimum bid step is rounded up; a deleted limit-bid deposit leaves the recorded total (paired writers). Also (auction modules): identifier-kind agreement at every keeper call and no stale copy for every Get/Set accessor pair. Also: in the automatic fill each reduction of the recorded limit-bid total equals the change of the depositor's record on the same path. Also: the depositor's record and the recorded total change by the same amount in every limit-bid function.",
     "C13": " Also: identifier-kind agreement and generic stale-copy rule for locker and collector, per-asset books receive the amount of the same side (sold lot / raised asset) of the auction record as the asset id they are keyed by, and locker handlers tie the records loaded under independent message ids. Also: UpdateCollector raises the net fees by the sum of exactly the fee amounts handed in; counter provenance for locker ids. Also: the stateless validation of the locker messages rejects negative and zero amounts.",
     "C14": " Also: the failure branch of a price/ratio helper cannot reach a success exit; every call into the esm and market keepers passes ids of the kind the callee names (the breaker is not looked up under an asset id); vault/locker/lend handlers tie the records loaded under independent message ids (the breaker's app is the position's app). Also: a sweep that consults the breaker of the app it sweeps seizes only vaults tied to that app.",
-    "C19": " Also (rewards module): identifier-kind agreement at every keeper call. Also: the per-epoch split gives the extra unit to exactly total%n epochs; each selection of the priced reserve side is decided on the edges of its denom test.",
+    "C19": " Also (rewards module): identifier-kind agreement at every keeper call. Also: the per-epoch split gives the extra unit to exactly total%n epochs; each selection of the priced reserve side is decided on the edges of its denom test. Also: the remaining balance of an external programme decreases from its own previous value; calls into the amm package pass quote-side values as x and base-side values as y.",
 }
 
 CLAIMS["C18"] = ("comparison guard on the elapsed-time difference (finite orderings), must-pass-through store rule, expression-identity carry rule",
